@@ -26,6 +26,8 @@ def int_to_limbs(x, width):
 
 def shown(limbs, t):
     """what print!(value, "\\n") shows for a value of type t"""
+    if t == "text":
+        return "".join(limbs)          # the parts of a text-only print!, in order
     if t == "bool":
         return "true" if limbs[0] else "false"
     return str(limbs_to_int(limbs, t))
